@@ -38,6 +38,8 @@ def check(run):
     run.guard("C20.1.totality", "who-may-write", lambda: rule_writers(run, F, cfg))
     run.guard("C20.2.ascii", cfg, lambda: rule_ascii(run, F, cfg))
     run.guard("C20.3.if-unless-exclusive", cfg, lambda: rule_exclusive(run, F, cfg))
+    run.guard("C20.3.if-unless-exclusive", cfg + "/cosmetic", lambda: rule_exclusive_cosmetic(run, F, cfg))
+    run.guard("C20.1.totality", cfg + "/domain-section", lambda: rule_domain_section_guard(run, F, cfg))
     run.guard("C20.4.ordering", cfg, lambda: rule_order(run, F, cfg))
     run.guard("C20.6.escaping", cfg, lambda: rule_escape(run, F, cfg))
     run.guard("C20.6.escaping", cfg + "/sinks", lambda: rule_escape_sinks(run, F, cfg))
@@ -351,3 +353,59 @@ def rule_nonempty(run, F, cfg):
     for inst, (ok, text, kw) in sorted(res.items()):
         run.ob("C20.7.url-filter-nonempty", inst, ok, text, **kw)
     run.floor("C20.7.url-filter-nonempty", f"url-filter leaves [{cfg}]", len(res), 7)
+
+
+def rule_exclusive_cosmetic(run, F, cfg):
+    """cosmetic conversion: the two location lists that end up as if-domain / unless-domain are never both Some"""
+    from analysis.pathinterp import enumerate_paths
+    f = F.fn(COS)
+    run.touched(f)
+    ag = [(b, i, st) for b, i, st in f.statements()
+          if st["k"] == "assign" and st["rv"]["k"] == "agg" and st["rv"].get("adt") == "content_blocking::CbTrigger"]
+    if len(ag) != 1:
+        run.ob("C20.3.if-unless-exclusive", "cosmetic:trigger", False, f"{len(ag)} CbTrigger constructions in the cosmetic conversion",
+               status="UNDISCHARGED", config=cfg)
+        return
+    b, i, st = ag[0]
+    ops = dict(zip(st["rv"]["fields"], st["rv"]["ops"]))
+    # the lists placed in the trigger are the two components of a (hostnames, not_hostnames) pair, swapped for exceptions
+    tuples = sorted(tuple(f.vexpr_operand(o) for o in s2["rv"]["ops"]) for b2, i2, s2 in f.statements()
+                    if s2["k"] == "assign" and s2["rv"]["k"] == "agg" and s2["rv"].get("agg") == "tuple" and len(s2["rv"]["ops"]) == 2
+                    and all("hostnames_vec" in f.vexpr_operand(o) for o in s2["rv"]["ops"]))
+    ok_src = tuples == [("$hostnames_vec", "$not_hostnames_vec"), ("$not_hostnames_vec", "$hostnames_vec")] and \
+        "if_domain" in ops and "unless_domain" in ops
+    tested = sorted(x for x in (f.vexpr_operand(t["args"][0]) for tb, t in f.calls(r"^std::option::Option::is_some$"))
+                    if "hostnames_vec" in x)
+    n = both = undecided = 0
+    for p in enumerate_paths(f, stop_blocks=[b], budget=200000):
+        if p.end != f"stop:{b}":
+            continue
+        n += 1
+        vals = [v for e, v in p.conds if re.match(r"^std::option::Option::is_some\(content_blocking::non_empty\(", e)]
+        if vals and all(v == 1 for v in vals) and len(vals) >= 2:
+            both += 1
+        if not any(v == 0 for v in vals):
+            undecided += 1
+    run.ob("C20.3.if-unless-exclusive", "cosmetic:trigger-lists", ok_src and n > 0 and both == 0 and undecided == 0
+           and tested == ["$hostnames_vec", "$not_hostnames_vec"],
+           "the cosmetic CbTrigger takes (if_domain, unless_domain) from the pair (hostnames, not_hostnames) — swapped for "
+           "exceptions — and is built only on paths where is_some() failed for at least one of the two "
+           f"({n} paths, {both} with both present, {undecided} without a failed test; tested {tested}; pairs {tuples})",
+           site=f.loc(b, i), config=cfg)
+
+
+def rule_domain_section_guard(run, F, cfg):
+    """the re-parse of the raw line's `domain=` option (with its unwraps and slices) runs only for rules that have
+    a positive or a negated domain list, i.e. that do have a `$...domain=` section"""
+    from analysis.guards import guarded_by_disjunction
+    f = F.fn(NET)
+    sites = [(b, t) for b, t in f.calls(r"^std::option::Option::unwrap$|^memchr::memchr$|^core::str::find$|str::find$")
+             if "raw_line" in f.vexpr_call(t) or "$opts" in f.vexpr_call(t)]
+    bad = []
+    for b, t in sites:
+        if not guarded_by_disjunction(f, b, r"Option::is_some\((arg:)?v\.opt_domains\)$", 1, r"Option::is_some\((arg:)?v\.opt_not_domains\)$", 1):
+            bad.append(f.loc(b))
+    run.ob("C20.1.totality", "domain-section-guard", bool(sites) and not bad,
+           f"the {len(sites)} raw-line lookups of the `domain=` section are reached only when opt_domains or "
+           f"opt_not_domains is Some (a rule without options has no `$` to find); unguarded: {bad[:2]}",
+           site=f.loc(sites[0][0]) if sites else f.loc(0), config=cfg)
